@@ -58,7 +58,7 @@ fn arb_conn() -> BoxedStrategy<ConnPlan> {
 
 fn arb_op() -> BoxedStrategy<COp> {
     prop_oneof![
-        10 => (prop_oneof![3 => Just(Style::Future), 2 => Just(Style::Callback), 2 => Just(Style::Ffi)], 0usize..4, any::<u8>(), prop::sample::select(vec![3u32, 10, 50, 500]), prop_oneof![9 => arb_valid_req(), 1 => arb_req_spec()])
+        10 => (prop_oneof![3 => Just(Style::Future), 2 => Just(Style::Callback), 2 => Just(Style::Ffi)], 0usize..4, any::<u8>(), prop::sample::select(vec![0u32, 3, 10, 50, 500]), prop_oneof![9 => arb_valid_req(), 1 => arb_req_spec()])
             .prop_map(|(style, handle, unit, timeout_ms, req)| COp::Submit { id: 0, style, handle, unit, timeout_ms, req }),
         6 => prop::sample::select(vec![1u32, 2, 3, 5, 10, 50, 600]).prop_map(COp::Advance),
         2 => Just(COp::Yield),
